@@ -72,6 +72,7 @@ func invalidPart(t tuple) string {
 }
 
 func run(c *vf.Ctx) {
+	c.RaceCompanion("scrypt.Key", "golang.org/x/crypto/scrypt.", "golang.org/x/crypto/pbkdf2.")
 	const maxInt = math.MaxInt
 	const minInt = math.MinInt
 	Ns := []int{minInt, -4, -1, 0, 1, 2, 3, 4, 5, 6, 7, 8, 12, 16, 24, 32, 64, 128, 256, 512, 1024, 2048, 4096, 4097, 1 << 31, 1<<31 + 1, 1 << 62, maxInt}
